@@ -368,3 +368,21 @@ Proof.
     apply filter_none. eapply Forall_impl; [|exact Fall].
     intros r Hr. unfold in_range_row. rewrite Hr. apply andb_false_r.
 Qed.
+
+(** byte level, inside and outside the guard *)
+Theorem trim_range_filter plen s e rows :
+  Forall (wf_row plen) rows -> sorted_rows rows = true -> guard_trim s e rows = true ->
+  trim_range s e (plen + 4) (enc_rows rows) = enc_rows (filter (in_range_row s e) rows).
+Proof.
+  intros W S G. rewrite (trim_range_refines plen s e rows W). f_equal.
+  exact (trim_rows_filter s e rows S G).
+Qed.
+
+Theorem trim_range_outside_guard plen s e rows :
+  Forall (wf_row plen) rows -> sorted_rows rows = true -> guard_trim s e rows = false ->
+  trim_range s e (plen + 4) (enc_rows rows) = enc_rows (drop_rows s rows)
+  /\ drop_rows s rows <> [] /\ filter (in_range_row s e) rows = [].
+Proof.
+  intros W S G. rewrite (trim_range_refines plen s e rows W).
+  destruct (trim_rows_outside_guard s e rows S G) as (A & B & C). rewrite A. auto.
+Qed.
